@@ -384,7 +384,7 @@ def run(chk: core.Check):
                 "namespace x width x batch shape (n x d, 1 x d, 1-D) x bounds over 9 decades of width and 7 of offset x points (interior, at the clipping margin, "
                 "periodic: far outside, at the edges, lower - 1e-20, exact multiples of the period); all distinct cases count as non-trivial")
     chk.trusted += ["scipy erf/erfinv (the driver uses its own numerical erf/erfinv, agreement is part of the correspondence)", "numpy/torch/jax elementwise ops and `%`"]
-    cases = [gen_case(r, i, chk.tier) for i in range(576 if quick else 11520)]
+    cases = [gen_case(r, i, chk.tier) for i in range(576 if quick else 5760)]
     for i in range(0, len(cases), 288):
         check_cases(chk, cases[i:i + 288])
 
